@@ -1,5 +1,6 @@
 From Coq Require Import List ZArith NArith Bool.
-From Stam Require Import Model.StamqlLex Model.Stamql Proofs.StamqlLex Proofs.StamqlTotal Props.C09.
+Import ListNotations.
+From Stam Require Import Model.StamqlLex Model.Stamql Spec.StamqlSpec Proofs.StamqlLex Proofs.StamqlTotal Proofs.StamqlFix Props.C09.
 Check (C09_get_arg_total : forall dt s, get_arg dt s <> Panic /\ get_arg dt s <> Fuel).
 Check (C09_slice_safe : forall kw qs,
   str_eqb (split_first qs) kw = true -> exists r, qs = kw ++ r /\ strip kw qs = Ok r).
@@ -11,6 +12,14 @@ Check (C09_parse_total : forall (dt : str -> option str) (re : str -> bool) (s :
   parse_query dt re s <> Panic /\ parse_query dt re s <> Fuel).
 Check (C09_try_from_total : forall (dt : str -> option str) (re : str -> bool) (s : str),
   query_try_from dt re s <> Panic /\ query_try_from dt re s <> Fuel).
+Check (C09_dataop_fixpoint : forall dt o t rest, op_ok dt o -> print_dataop o = Some t ->
+  read_op dt (t ++ c_semicolon :: rest) = Ok (o, c_semicolon :: rest)).
+Check (C09_print_parse_fix_partial : forall dt re f c t rest,
+  wf_constr dt re c = true -> class_free dt c = true -> (forall l, c <> CUnion l) ->
+  print_constraint c = Some t -> no_trail (t ++ rest) ->
+  parse_constraint dt re (S f) (t ++ rest) = Ok (c, [], trim_start rest)).
+Check (C09_print_parse_fix_statement : Prop).
+Check (Known_C09_quote_witness : refuted (sel [CId [97; 98; 92]%N]) 2).
 Print Assumptions C09_get_arg_total.
 Print Assumptions C09_parse_name_total.
 Print Assumptions C09_parse_attributes_total.
@@ -22,3 +31,20 @@ Print Assumptions C09_constraint_total.
 Print Assumptions C09_parse_total.
 Print Assumptions C09_try_from_total.
 Print Assumptions C09_remainder_bounded.
+Print Assumptions C09_quoted_token.
+Print Assumptions C09_raw_token.
+Print Assumptions C09_integer_roundtrip.
+Print Assumptions C09_cursor_roundtrip.
+Print Assumptions C09_offset_roundtrip.
+Print Assumptions C09_dataop_fixpoint.
+Print Assumptions C09_print_parse_fix_partial.
+Print Assumptions Known_C09_assignments_witness.
+Print Assumptions Known_C09_quote_witness.
+Print Assumptions Known_C09_rawvar_witness.
+Print Assumptions Known_C09_float_witness.
+Print Assumptions Known_C09_keyword_witness.
+Print Assumptions Known_C09_depth_witness.
+Print Assumptions Known_C09_keyvaluevar_witness.
+Print Assumptions Known_C09_relation_witness.
+Print Assumptions Known_C09_any_witness.
+Print Assumptions C09_nonvacuous.
